@@ -1,7 +1,110 @@
-"""String-structural operations through uninterpreted functions (assumption A-str); filled in on demand."""
+"""String operations.  Concrete receivers and arguments run natively; symbolic ones use z3's string theory where it is
+exact and cheap (prefix/suffix/contains/length/concat) and uninterpreted functions otherwise (assumption A-str: the
+contracts that rely on a structural string function state the axioms they need)."""
 import z3
+from .smt import Val, I, B, S
 from .values import *
+
+U_STRIP = z3.Function("py_strip", S, S)
+U_LOWER = z3.Function("py_lower", S, S)
+U_UPPER = z3.Function("py_upper", S, S)
+U_REPLACE = z3.Function("py_replace_all", S, S, S, S)
+U_FIND = z3.Function("py_find", S, S, I)
+U_JOIN_SPLIT = z3.Function("py_join_split_ws", S, S)      # " ".join(s.split())
+U_ENCODABLE = z3.Function("py_utf8_encodable", S, B)        # s.encode("utf-8", "strict") succeeds (no lone surrogates)
+U_SLICE = z3.Function("py_slice", S, I, I, S)
+
+
+def _t(v):
+    return z3.StringVal(v) if isinstance(v, str) else v.t
+
+
+def _conc(*vs):
+    return all(not isinstance(v, Sym) for v in vs)
+
+
+def method(ip, recv, name, args, kwargs):
+    c = ip.c
+    if _conc(recv, *args, *kwargs.values()):
+        try:
+            r = getattr(recv, name)(*args, **kwargs)
+        except UnicodeError as ex:
+            ip.py_raise(type(ex), str(ex))
+        except (TypeError, ValueError, AttributeError) as ex:
+            ip.py_raise(type(ex), str(ex))
+        if isinstance(r, list):
+            return ip.new_list(r)
+        if isinstance(r, bytes):
+            return Sym(c.fresh("bytes", S), "bytes")
+        return r
+    t = _t(recv)
+    if name in ("startswith", "endswith") and len(args) == 1 and (isinstance(args[0], str) or (isinstance(args[0], Sym) and args[0].t.sort() == S)):
+        f = z3.PrefixOf if name == "startswith" else z3.SuffixOf
+        return c.concretise(Sym(z3.simplify(f(_t(args[0]), t)), "bool"))
+    if name == "strip" and not args:
+        return Sym(U_STRIP(t), "str")
+    if name == "lower" and not args:
+        return Sym(U_LOWER(t), "str")
+    if name == "upper" and not args:
+        return Sym(U_UPPER(t), "str")
+    if name == "replace" and len(args) == 2:
+        return Sym(U_REPLACE(t, _t(args[0]), _t(args[1])), "str")
+    if name == "find" and len(args) == 1:
+        return Sym(U_FIND(t, _t(args[0])), "int")
+    if name == "encode":
+        # only the outcome matters to the callers: UnicodeEncodeError on lone surrogates
+        if c.branch(U_ENCODABLE(t), "encodable"):
+            return Sym(c.fresh("bytes", S), "bytes")
+        ip.py_raise(UnicodeEncodeError, "surrogates not allowed")
+    if name == "split":
+        return SplitV(recv, args[0] if args else None)
+    if name == "join":
+        it = args[0]
+        if isinstance(it, SplitV) and it.sep is None and recv == " ":
+            return Sym(U_JOIN_SPLIT(_t(it.s)), "str")
+        if isinstance(it, PList) and it.ref is None:
+            parts = []
+            for i, x in enumerate(it.items):
+                if i:
+                    parts.append(recv)
+                parts.append(x)
+            if not parts:
+                return ""
+            from . import prims
+            return prims.str_concat(ip, parts) if not ip.w.opaque_fstrings else (
+                "".join(parts) if all(isinstance(p, str) for p in parts) else Sym(c.fresh("s_join", S), "str"))
+        if isinstance(it, JoinedV):
+            return Sym(it.fn(t), "str")
+        # join over a symbolic list: opaque
+        return Sym(c.fresh("s_join", S), "str")
+    if name == "format":
+        for a in args:
+            pass
+        return Sym(c.fresh("s_fmt", S), "str")
+    raise Unsupported(f"str.{name} on a symbolic string")
+
+
+class SplitV:
+    """result of s.split(sep) kept abstract; consumers: " ".join(...), len(...), iteration"""
+    __slots__ = ("s", "sep")
+
+    def __init__(self, s, sep):
+        self.s, self.sep = s, sep
+
+
+class JoinedV:
+    __slots__ = ("fn",)
+
+    def __init__(self, fn):
+        self.fn = fn
 
 
 def getslice(ip, o, lo, hi):
+    if isinstance(o, Sym) and o.t.sort() == S:
+        lt = z3.IntVal(0) if lo is None else (z3.IntVal(lo) if isinstance(lo, int) else lo.t)
+        if hi is None:
+            # s[a:]  with a >= 0
+            return Sym(z3.SubString(o.t, lt, z3.Length(o.t)), "str") if not (isinstance(lo, int) and lo < 0) else Sym(U_SLICE(o.t, lt, z3.IntVal(-1)), "str")
+        ht = z3.IntVal(hi) if isinstance(hi, int) else hi.t
+        return Sym(U_SLICE(o.t, lt, ht), "str")
     return NotImplemented
